@@ -38,7 +38,7 @@ def required_cells(tier):
 
 
 def cases(tier, seed):
-    n = 96 if tier == "quick" else 1000
+    n = 160 if tier == "quick" else 1200
     return [{"kind": "diff", "seed": seed, "idx": i, "tier": tier}
             for i in range(n)]
 
